@@ -163,7 +163,7 @@ int __wrap_pthread_cond_wait(pthread_cond_t *c, pthread_mutex_t *m)
     if (mo->owner != my_tid) mc_violation("POSIX", "posix/cond-wait-mutex-not-held", "pthread_cond_wait by T%d with a mutex %p that it does not hold (owner T%d): undefined behaviour", my_tid, (void *)m, mo->owner);
     /* atomically: release the mutex and start waiting */
     mon_release_obj(m); mo->owner = -1;
-    co->waiters[co->nwait++] = my_tid;
+    co->waiters[co->nwait++] = my_tid; t->long_waits++;
     t->pend_kind = OP_COND_BLOCKED; t->pend_obj = c; t->cond_mutex = m; t->woken = 0;
     sched_block_current();
     /* chosen again: woken (signal, broadcast or spurious) and the mutex is free */
